@@ -1128,6 +1128,119 @@ func runPkiReload(c *hx.Ctx) {
 		started, o0, steps := m.pkHistory(c, init, ca, func(i int, _ *pkState) (pkCand, pkCA, bool) { return s.cd, pkSampleCA(c), i == 0 })
 		emit("sweep-reload", init, ca, started, o0, steps)
 	}
+	// boundary corpus: every way a certificate reload is refused x every kind of trust-store change carried by the
+	// SAME reload (the two halves of PKI.reload are independent: the new blocklist / bundle must be in force afterwards)
+	allCAs := pkCA{}
+	for cv := 0; cv < 2; cv++ {
+		for i := 0; i < pkCAsPerCurve; i++ {
+			allCAs.cas = append(allCAs.cas, cv*16+i)
+		}
+	}
+	without := func(drop ...int) []int {
+		var out []int
+		for _, id := range allCAs.cas {
+			keep := true
+			for _, d := range drop {
+				keep = keep && id != d
+			}
+			if keep {
+				out = append(out, id)
+			}
+		}
+		return out
+	}
+	storeChanges := []pkCA{
+		{cas: allCAs.cas, block: []int{0}},                 // one peer newly blocklisted
+		{cas: allCAs.cas, block: []int{1, 4}},              // two
+		{cas: without(m.peers[0].issuer)},                  // the authority of peer 0 removed
+		{cas: without(m.peers[1].issuer), block: []int{2}}, // both kinds at once
+		{cas: []int{m.peers[5].issuer}},                    // every authority but one removed
+		{cas: allCAs.cas, block: []int{0, 1, 2, 3, 4, 5}},  // everybody blocklisted
+	}
+	for shape := 0; shape < 3; shape++ {
+		var old *pkState
+		for old == nil || (shape == 0) != (old.v2 == nil) || (shape == 1) != (old.v1 == nil) {
+			old = pkSampleOld(c)
+		}
+		init := pkCand{v1: old.v1, v2: old.v2, kkey: old.kkey, kcurve: old.kkey / 16}
+		cp := func(k *pkCrt) *pkCrt {
+			if k == nil {
+				return nil
+			}
+			return &pkCrt{nets: append([]int{}, k.nets...), curve: k.curve, key: k.key}
+		}
+		same := func() pkCand { return pkCand{v1: cp(old.v1), v2: cp(old.v2), kkey: old.kkey, kcurve: old.kkey / 16} }
+		otherNets := func(n []int) []int {
+			for {
+				r := pkRandNets(c, -1)
+				if !pkIntsEq(r, n) {
+					return r
+				}
+			}
+		}
+		var refused []pkCand
+		{ // networks changed
+			cd := same()
+			if cd.v1 != nil {
+				cd.v1.nets = otherNets(cd.v1.nets)
+			}
+			if cd.v2 != nil {
+				cd.v2.nets = otherNets(cd.v2.nets)
+			}
+			refused = append(refused, cd)
+		}
+		{ // curve changed (certificates and key)
+			cd := same()
+			cv := 1 - old.kkey/16
+			cd.kcurve, cd.kkey = cv, cv*16+c.Intn(pkKeysPerCurve)
+			for _, k := range []*pkCrt{cd.v1, cd.v2} {
+				if k != nil {
+					k.curve, k.key = cv, cd.kkey
+				}
+			}
+			refused = append(refused, cd)
+		}
+		{ // the key does not pair with the certificates
+			cd := same()
+			cd.kkey = (old.kkey/16)*16 + (old.kkey%16+1)%pkKeysPerCurve
+			refused = append(refused, cd)
+		}
+		if old.v1 != nil && old.v2 != nil { // v1 and v2 disagree on the primary network
+			cd := same()
+			cd.v2.nets = []int{(old.v1.nets[0] + 1) % pkNets}
+			refused = append(refused, cd)
+		}
+		if old.v2 != nil { // v2 dropped without an equivalent v1
+			cd := same()
+			cd.v2 = nil
+			cd.v1 = &pkCrt{nets: otherNets(old.v2.nets), curve: old.v2.curve, key: old.v2.key}
+			refused = append(refused, cd)
+		}
+		if old.v2 == nil { // v1-only -> v2-only with other networks
+			cd := same()
+			cd.v1 = nil
+			cd.v2 = &pkCrt{nets: otherNets(old.v1.nets), curve: old.v1.curve, key: old.v1.key}
+			refused = append(refused, cd)
+		}
+		for k := 1; k < pkLerrKinds; k++ { // files that do not load, otherwise unchanged
+			cd := same()
+			cd.lerr = k
+			if k == pkLerrNoCert {
+				cd.v1, cd.v2 = nil, nil
+			}
+			refused = append(refused, cd)
+		}
+		for _, cd := range refused {
+			if pkRule(pkFeatures(old, cd)) {
+				panic("harness: a certificate change meant to be refused is acceptable by the rule")
+			}
+			for _, sc := range storeChanges {
+				cd, sc := cd, sc
+				started, o0, steps := m.pkHistory(c, init, allCAs, func(i int, _ *pkState) (pkCand, pkCA, bool) { return cd, sc, i == 0 })
+				emit("sweep-refused-x-store", init, allCAs, started, o0, steps)
+			}
+		}
+	}
 	// initial loads with every kind of CA bundle
 	for k := 0; k < 2*pkCaKinds; k++ {
 		old := pkSampleOld(c)
@@ -1156,7 +1269,9 @@ func runPkiReload(c *hx.Ctx) {
 		})
 		emit("history", init, ca, started, o0, steps)
 	}
-	cw.Close("sweep: one fresh concrete situation per feasible feature combination of the (re)load + every CA bundle kind at start-up; " +
+	cw.Close("sweep: one fresh concrete situation per feasible feature combination of the (re)load + every way a certificate reload is refused " +
+		"(changed networks, changed curve, key mismatch, v1/v2 disagree, v2 dropped without equivalent, v1-only -> other v2-only, 9 kinds of files that do not load) " +
+		"x 6 trust-store changes in the same reload (new blocklist entries, authorities removed, both) + every CA bundle kind at start-up; " +
 		"then random reload histories (1..12 reloads, new files related to the state in use with p~0.7, 15% defective files, " +
 		"30% unreadable CA bundles, random blocklists) through one real PKI; non-trivial = started and at least one reload accepted; distinct by literal")
 }
